@@ -656,7 +656,7 @@ func (p *parser) scanString(offset int) (string, error) {
 newline:
 	p.scanNewline()
 	err := "String not terminated"
-	if quote == '/' {
+	if quote == '/' || quote == -1 { // -1: inside a character class of a regular expression literal
 		err = "Invalid regular expression: missing /"
 		p.error(p.idxOf(offset), err)
 	}
